@@ -20,7 +20,7 @@ class Umlal(Opcode):
             processor.registers.set(self.d_lo, substring(result, 31, 0))
             if self.setflags:
                 processor.registers.cpsr.n = bit_at(result, 63)
-                processor.registers.cpsr.z = 0 if result else 1
+                processor.registers.cpsr.z = 0 if substring(result, 63, 0) else 1
                 if arch_version() == 4:
                     processor.registers.cpsr.c = 0  # unknown
                     processor.registers.cpsr.v = 0  # unknown
